@@ -70,6 +70,13 @@ Theorem right_passphrase_unlocks : forall c, c <> LRaw -> unlock c (Bytes a_pass
 Proof. exact unlock_right. Qed.
 Print Assumptions right_passphrase_unlocks.
 
+(* a configured master lock accepts nothing but a blob encrypted under ITS derived key: not a plain master key in any
+   form, not garbage, not a blob of another passphrase (data is ANY term) *)
+Theorem master_lock_accepts_only_its_blob : forall c pass data m,
+  unlock_data c pass data = Some m -> data = AEnc (lock_key_of c pass) empty m.
+Proof. exact unlock_data_only_its_blob. Qed.
+Print Assumptions master_lock_accepts_only_its_blob.
+
 (* FRESH NONCES: the encryptions of every run — protections of master keys by any number of lock instances, DEK
    wrappings, keyset encryptions — never use a (key, nonce) pair twice; the correspondence checks that the
    implementation's encryptions have the model's keys and the same no-repeat pattern (nonces read from the bytes) *)
